@@ -3,7 +3,7 @@
    blockSize, index % blockSize) addresses the right element, and every op sequence on deques of EQUAL
    block size refines the list specification.  swap between different block sizes breaks it. *)
 From Coq Require Import List Arith Bool Lia.
-Require Import XV.GenCont XV.ContVecDefs XV.ContVecModel XV.ContDeqDefs.
+Require Import XV.GenCont XV.ContVecDefs XV.ContVecModel XV.ContMapDefs XV.ContDeqDefs.
 Import ListNotations.
 
 Definition flat (d : xdeq) : list nat := concat (map vdata (q_blocks d)).
@@ -278,8 +278,6 @@ Definition drel (s : dstate) (t : lstate) : Prop :=
   flat (dreg0 s) = l0 t /\ flat (dreg1 s) = l1 t /\ dcur s = lcur t.
 Definition dsinv (s : dstate) : Prop := dinv (dreg0 s) /\ dinv (dreg1 s) /\ q_bs (dreg0 s) = q_bs (dreg1 s).
 
-(* operator[] writes are validated by the correspondence and the oracle but are not part of the theorem *)
-Definition dop_ok (o : dop) : bool := match o with DSetIdx _ _ => false | _ => true end.
 
 Lemma set_cur_d_ok : forall s t d l, drel s t -> dsinv s -> dinv d -> q_bs d = q_bs (cur_d s) -> flat d = l ->
   drel (set_cur_d s d) (set_cur_l t l) /\ dsinv (set_cur_d s d).
@@ -295,21 +293,77 @@ Proof.
   destruct (lcur t); simpl; (split; [auto|]); (split; [assumption|]); (split; [assumption|]); congruence.
 Qed.
 
-Lemma dstep_refines : forall s t o, drel s t -> dsinv s -> dop_ok o = true ->
+(* operator[] write *)
+Lemma set_nth_app_l : forall (a r : list nat) i x, i < length a -> set_nth i x (a ++ r) = set_nth i x a ++ r.
+Proof. induction a; intros r i x H; simpl in *; [lia|]. destruct i; [reflexivity|]. simpl. f_equal. apply IHa. lia. Qed.
+Lemma set_nth_app_r : forall (a r : list nat) j x, set_nth (length a + j) x (a ++ r) = a ++ set_nth j x r.
+Proof. induction a; intros; simpl; [reflexivity | f_equal; apply IHa]. Qed.
+
+Lemma upd_snoc_l : forall F (b : vec) i f, i < length F -> upd_bucket i f (F ++ [b]) = upd_bucket i f F ++ [b].
+Proof. induction F; intros b i f H; simpl in *; [lia|]. destruct i; [reflexivity|]. simpl. f_equal. apply IHF. lia. Qed.
+Lemma upd_snoc_r : forall F (b : vec) f, upd_bucket (length F) f (F ++ [b]) = F ++ [f b].
+Proof. induction F; intros; simpl; [reflexivity | f_equal; apply IHF]. Qed.
+
+Lemma set_blocks_flat : forall bs F b i x, 1 <= bs -> Forall (fun y => vsize y = bs) F -> vsize b <= bs ->
+  i < length F * bs + vsize b ->
+  let f := fun y => mkvec (set_nth (i mod bs) x (vdata y)) (vcap y) in
+  concat (map vdata (upd_bucket (i / bs) f (F ++ [b]))) = set_nth i x (concat (map vdata (F ++ [b]))) /\
+  ((i / bs < length F /\ upd_bucket (i / bs) f (F ++ [b]) = upd_bucket (i / bs) f F ++ [b]) \/
+   (i / bs = length F /\ upd_bucket (i / bs) f (F ++ [b]) = F ++ [f b])).
+Proof.
+  intros bs F. induction F; intros b i x B H Hb L f; simpl in *.
+  - rewrite Nat.div_small by lia. unfold f. rewrite Nat.mod_small by lia. simpl. rewrite !app_nil_r. split; [reflexivity|]. right. auto.
+  - inversion H; subst. destruct (lt_dec i (vsize a)) as [Lt|Ge].
+    + rewrite Nat.div_small by lia. unfold f. rewrite Nat.mod_small by lia. simpl. split.
+      * symmetry. apply set_nth_app_l. exact Lt.
+      * left. split; [lia | reflexivity].
+    + assert (Hi : i = 1 * vsize a + (i - vsize a)) by lia.
+      assert (Dv : i / vsize a = S ((i - vsize a) / vsize a)).
+      { rewrite Hi at 1. rewrite Nat.div_add_l by lia. reflexivity. }
+      assert (Md : i mod vsize a = (i - vsize a) mod vsize a).
+      { rewrite Hi at 1. replace (1 * vsize a + (i - vsize a)) with ((i - vsize a) + 1 * vsize a) by lia. apply Nat.mod_add. lia. }
+      rewrite Dv. simpl. unfold f. rewrite Md.
+      destruct (IHF b (i - vsize a) x B H3 Hb) as (E1 & E2); [lia|]. cbv zeta in E1, E2.
+      split.
+      * rewrite E1. rewrite <- (set_nth_app_r (vdata a) _ (i - vsize a) x). f_equal. unfold vsize in *. lia.
+      * destruct E2 as [[E2 E3]|[E2 E3]]; [left | right]; (split; [lia | rewrite E3; reflexivity]).
+Qed.
+
+Lemma set_block_ok : forall d i x, dinv d -> i < length (flat d) ->
+  dinv (set_block d i x) /\ flat (set_block d i x) = set_nth i x (flat d) /\ q_bs (set_block d i x) = q_bs d.
+Proof.
+  intros d i x I L. destruct (deq_cases d) as [E|(F & b & E)].
+  { unfold flat in L. rewrite E in L. simpl in L. lia. }
+  destruct d as [bs blocks fr]. simpl in E. subst blocks.
+  destruct (inv_snoc bs F b fr I) as (B & Fu & L1 & L2 & Fr).
+  rewrite flat_snoc', app_length, (concat_full_length bs F Fu) in L. fold (vsize b) in L.
+  destruct (set_blocks_flat bs F b i x B Fu L2 L) as (E1 & E2). cbv zeta in E1, E2.
+  unfold set_block, flat. cbn [q_bs q_blocks q_free]. split; [|split; [exact E1 | reflexivity]].
+  destruct E2 as [[E2 E3]|[E2 E3]]; rewrite E3.
+  - apply mk_inv_snoc; auto. apply Forall_forall. intros y Hy.
+    assert (G : forall (l : list vec) k, Forall (fun z => vsize z = bs) l ->
+                Forall (fun z => vsize z = bs) (upd_bucket k (fun y0 => mkvec (set_nth (i mod bs) x (vdata y0)) (vcap y0)) l)).
+    { induction l; intros k Hl; destruct k; simpl; auto; inversion Hl; subst; constructor; auto.
+      all: unfold vsize in *; simpl; rewrite ?set_nth_length; try reflexivity; try assumption. }
+    pose proof (G F (i / bs) Fu) as G'. rewrite Forall_forall in G'. apply G'. assumption.
+  - apply mk_inv_snoc; auto; unfold vsize in *; simpl; rewrite set_nth_length; assumption.
+Qed.
+
+Lemma dstep_refines : forall s t o, drel s t -> dsinv s ->
   match dstep s o, dlstep t o with
   | None, None => True
   | Some (s', r), Some (t', r') => r = r' /\ drel s' t' /\ dsinv s'
   | _, _ => False
   end.
 Proof.
-  intros s t o R I Ok.
+  intros s t o R I.
   assert (C : flat (cur_d s) = cur_l t) by (destruct R as (A & B & D); unfold cur_d, cur_l; rewrite D; destruct (lcur t); assumption).
   assert (O : flat (oth_d s) = oth_l t) by (destruct R as (A & B & D); unfold oth_d, oth_l; rewrite D; destruct (lcur t); assumption).
   assert (IC : dinv (cur_d s)) by (destruct I as (A & B & _); unfold cur_d; destruct (dcur s); assumption).
   assert (IO : dinv (oth_d s)) by (destruct I as (A & B & _); unfold oth_d; destruct (dcur s); assumption).
   assert (BO : q_bs (oth_d s) = q_bs (cur_d s)) by (destruct I as (_ & _ & E); unfold oth_d, cur_d; destruct (dcur s); congruence).
   assert (N : dsize (cur_d s) = length (cur_l t)) by (rewrite (dsize_flat _ IC), C; reflexivity).
-  destruct o; try discriminate Ok; unfold dstep, dlstep; rewrite ?N.
+  destruct o; unfold dstep, dlstep; rewrite ?N.
   - destruct (dpush_ok (cur_d s) x IC) as (P & Q & S). split; [reflexivity|]. apply set_cur_d_ok; auto. rewrite Q, C. reflexivity.
   - destruct (length (cur_l t) =? 0) eqn:E; [exact Logic.I|]. apply Nat.eqb_neq in E.
     assert (Ne : flat (cur_d s) <> []) by (rewrite C; destruct (cur_l t); simpl in *; [lia | discriminate]).
@@ -319,6 +373,9 @@ Proof.
     split; [|auto]. rewrite (dback_flat _ IC Ne), C. reflexivity.
   - destruct (i <? length (cur_l t)) eqn:E; [|exact Logic.I]. apply Nat.ltb_lt in E. split; [|auto].
     rewrite (dindex_flat _ _ IC) by (rewrite C; assumption). rewrite C. reflexivity.
+  - destruct (i <? length (cur_l t)) eqn:E; [|exact Logic.I]. apply Nat.ltb_lt in E.
+    destruct (set_block_ok (cur_d s) i x IC) as (P & Q & S); [rewrite C; assumption|].
+    split; [reflexivity|]. apply set_cur_d_ok; auto. rewrite Q, C. reflexivity.
   - destruct (dresize_ok (cur_d s) n IC) as (P & Q & S). split; [reflexivity|]. apply set_cur_d_ok; auto. rewrite Q, C. reflexivity.
   - destruct (dclear_ok (cur_d s) IC) as (P & Q & S). split; [reflexivity|]. apply set_cur_d_ok; auto.
   - split; [|auto]. rewrite (delems_flat _ IC), C. reflexivity.
@@ -339,14 +396,13 @@ Proof.
     split; [reflexivity|]. apply set_cur_d_ok; auto.
 Qed.
 
-Theorem deque_refines_list_lemma : forall ops s t, drel s t -> dsinv s -> forallb dop_ok ops = true ->
+Theorem deque_refines_list_lemma : forall ops s t, drel s t -> dsinv s ->
   drun s ops = dlrun t ops.
 Proof.
-  induction ops; intros s t R I Ok; simpl; [reflexivity|].
-  simpl in Ok. apply andb_prop in Ok. destruct Ok as [Ok1 Ok2].
-  pose proof (dstep_refines s t a R I Ok1) as H.
+  induction ops; intros s t R I; simpl; [reflexivity|].
+  pose proof (dstep_refines s t a R I) as H.
   destruct (dstep s a) as [[s' r]|]; destruct (dlstep t a) as [[t' r']|]; try contradiction.
-  - destruct H as (-> & R' & I'). rewrite (IHops s' t' R' I' Ok2). f_equal. f_equal.
+  - destruct H as (-> & R' & I'). rewrite (IHops s' t' R' I'). f_equal. f_equal.
     assert (C : flat (cur_d s') = cur_l t') by (destruct R' as (A & B & D); unfold cur_d, cur_l; rewrite D; destruct (lcur t'); assumption).
     assert (IC : dinv (cur_d s')) by (destruct I' as (A & B & _); unfold cur_d; destruct (dcur s'); assumption).
     rewrite (delems_flat _ IC), (dsize_flat _ IC), C. f_equal. f_equal.
@@ -356,5 +412,5 @@ Proof.
       destruct (cur_d s') as [bs blocks fr]. simpl in E. subst blocks.
       destruct (inv_snoc _ _ _ _ IC) as (_ & _ & L1 & _). rewrite flat_snoc' in C. rewrite <- C, app_length.
       unfold vsize in L1. symmetry. apply Nat.eqb_neq. lia.
-  - rewrite (IHops s t R I Ok2). reflexivity.
+  - rewrite (IHops s t R I). reflexivity.
 Qed.
